@@ -989,7 +989,7 @@ func (e *FEnc) run() {
 		for i, in := range b.Instrs {
 			if dr, ok := in.(*ssa.DebugRef); ok {
 				if obj := dr.Object(); obj != nil {
-					if _, isVar := obj.(*types.Var); isVar {
+					if v, isVar := obj.(*types.Var); isVar && !v.IsField() {
 						e.debug = append(e.debug, debugRef{obj.Name(), obj, dr.X, dr.IsAddr, b, i})
 					}
 				}
